@@ -5,7 +5,7 @@
 From ACV Require Import Base.Strs Model.Report Model.Names Model.Dnf Model.Escape Model.TemplatesRef.
 From ACV Require Import Proofs.ReportProofs Proofs.NamesProofs Proofs.DnfFuel Proofs.EscapeProofs Extracted.NameFacts Extracted.Templates.
 From ACV Require Import Model.PathGrammar Model.PathSem Model.PathGen Proofs.PathGenProofs Model.RuleGen Proofs.RuleGenProofs.
-From ACV Require Import Model.Dnf Model.Yaml Model.ProfileParser Model.Compile Model.Elab Proofs.CompileProofs.
+From ACV Require Import Model.Dnf Model.Yaml Model.ProfileParser Model.Compile Model.Elab Proofs.CompileProofs Proofs.ScopeProofs.
 Local Open Scope string_scope.
 
 (* ties: the variable alphabet and the name formats are the modelled ones; the snippets that use the names *)
@@ -231,6 +231,30 @@ violation[matches] {
 }", 5).
 Proof. vm_compute. reflexivity. Qed.
 
+(* Safety of EVERY rule body of a declarative profile, nested constraints included.  Next to its text every result of the
+   generator carries the reading of its lines as statements (variable bound, variables needed; a comprehension is a local
+   scope: Compile.stmt / safe_list).  For a rule whose constraints all speak about the variable in scope and that holds no
+   hand-written Rego - [scoped], what the parser builds for a declarative profile; the run evaluates the test scoped_b on the rule
+   built for every compared profile - every body the generator writes is safe from the empty environment, whatever the depth,
+   width, number of placeholders and value of the name counter. *)
+Theorem C07_nested_constraints_are_well_scoped : forall neg qn p rule results,
+  Forall (fun t => Forall (okc (cn_child p)) (t_branch t)) results -> okc (cn_parent p) (nested_simple neg qn p rule results).
+Proof. exact nested_okc. Qed.
+Theorem C07_every_result_is_well_scoped : forall fuel r c ts c' v, scoped v r -> gen fuel r c = Some (ts, c') -> all_okc v ts.
+Proof. exact gen_okc. Qed.
+Theorem C07_every_rule_body_is_safe : forall fuel r c ts c' x m,
+  scoped x r -> gen fuel r c = Some (ts, c') ->
+  forall t, In t ts -> safe_list [] (rule_body_du x m (t_branch t)) = true.
+Proof. exact rule_bodies_safe. Qed.
+Theorem C07_declarative_profile_bodies_are_safe : forall p v fuel c ts c' m,
+  profile_scoped p = true -> In v (cp_vals p) -> gen fuel (cv_rule v) c = Some (ts, c') ->
+  forall t, In t ts -> safe_list [] (rule_body_du (cv_var v) m (t_branch t)) = true.
+Proof. exact declarative_profile_bodies_safe. Qed.
+Theorem C07_scoped_test_is_sound : forall r v, scoped_b v r = true -> scoped v r.
+Proof. exact scoped_b_sound. Qed.
+Theorem C07_example_is_declarative : declarative [("ex", "http://e/#")] c07_ex_doc = POk true.
+Proof. vm_compute. reflexivity. Qed.
+
 Print Assumptions C07_tie_letters.
 Print Assumptions C07_tie_templates.
 Print Assumptions C07_keywords_plain.
@@ -262,3 +286,9 @@ Print Assumptions C07_rule_text_example.
 Print Assumptions C07_text_generator_terminates.
 Print Assumptions C07_accepted_profile_gets_its_module.
 Print Assumptions C07_module_text_example.
+Print Assumptions C07_nested_constraints_are_well_scoped.
+Print Assumptions C07_every_result_is_well_scoped.
+Print Assumptions C07_every_rule_body_is_safe.
+Print Assumptions C07_declarative_profile_bodies_are_safe.
+Print Assumptions C07_scoped_test_is_sound.
+Print Assumptions C07_example_is_declarative.
